@@ -11,6 +11,8 @@
      [subj k]  manifestutil.Subject of k,
      [sk k]    k's media type is one manifestutil.Subject fetches (image manifest,
                image index, artifact manifest),
+     [bad k]   k has a manifest media type but its bytes are no JSON manifest
+               (content.Successors fails on it),
      [dflt k]  node k's media type is descriptor.DefaultMediaType
                (application/octet-stream), i.e. resolveBlob's descriptor equals
                the node's plain descriptor.
@@ -34,6 +36,8 @@
      fixF1: the referrer pass of gcIndex walks the subject chain and repeats until
             nothing changes (false: the pass as found, which never returns when a
             referrer's subject is not in the rebuilt graph: result RHang).
+     fixRef : Tag refuses a reference that is the digest string of other content than
+            the descriptor's (false: the code as found accepts it as a tag name);
      fixHold: Delete with AutoGC does not queue the referrers of a deleted manifest directly:
             they wait in a pending list and are queued, after each deletion of the cascade,
             once no surviving (not queued) manifest links to them other than as its subject.
@@ -140,7 +144,7 @@ Record orders := mkOrd { o_save1 : list nat; o_save2 : list nat; o_gc1 : list na
                          o_del : list (list nat * list nat) }.
 Definition ord0 := mkOrd [] [] [] [] [].
 
-Inductive result := ROk | RAlreadyExists | RNotFound | RInvalidReference | RHang | ROutOfFuel.
+Inductive result := ROk | RAlreadyExists | RNotFound | RInvalidReference | RHang | ROutOfFuel | RBadContent.
 
 Inductive rdig := DPlain (k : nat) | DFull (d : desc) | DBlob (k : nat) | DNotFound.
 
@@ -150,8 +154,9 @@ Section Universe.
   Variable succs : nat -> list nat.
   Variable subj : nat -> option nat.
   Variable sk : nat -> bool.
+  Variable bad : nat -> bool.
   Variable dflt : nat -> bool.
-  Variable fixF2 fixA fixF1 fixHold : bool.
+  Variable fixF2 fixA fixF1 fixHold fixRef : bool.
 
   (* ---------- graph.Memory.IndexAll into a node set ---------- *)
   Fixpoint visit (fuel : nat) (present : nat -> bool) (n : nat) (g : list nat) : list nat :=
@@ -201,16 +206,23 @@ Section Universe.
     let m2 := res_tag d r m1 in
     maybe_save cfg o (mkStore (blobs s) m2 (gr s) (disk s)).
 
-  (* Store.Push of node k with its plain descriptor *)
-  Definition st_push (cfg : config) (o : orders) (k : nat) (s : store) : store * result :=
+  (* Store.Push with descriptor d (the digest entry of a manifest keeps what d carries) *)
+  Definition st_push_desc (cfg : config) (o : orders) (d : desc) (s : store) : store * result :=
+    let k := d_node d in
     if mem k (blobs s) then (s, RAlreadyExists)
+    else if bad k then (s, RBadContent)    (* graph.Index fails: the blob is removed again *)
     else
       let s1 := mkStore (k :: blobs s) (res s) (add k (gr s)) (disk s) in
-      if mf k then (st_tag cfg o (plain k) (RDig k) s1, ROk) else (s1, ROk).
+      if mf k then (st_tag cfg o d (RDig k) s1, ROk) else (s1, ROk).
+  (* ... with the plain descriptor of node k *)
+  Definition st_push (cfg : config) (o : orders) (k : nat) (s : store) : store * result :=
+    st_push_desc cfg o (plain k) s.
 
   (* Store.Tag (reference non-empty) *)
   Definition st_tagop (cfg : config) (o : orders) (d : desc) (r : ref) (s : store) : store * result :=
-    if mem (d_node d) (blobs s) then (st_tag cfg o d r s, ROk) else (s, RNotFound).
+    if fixRef && negb (match r with RDig k => Nat.eqb k (d_node d) | RTag _ => true end)
+    then (s, RInvalidReference)
+    else if mem (d_node d) (blobs s) then (st_tag cfg o d r s, ROk) else (s, RNotFound).
 
   (* Store.Untag (reference non-empty) *)
   Definition st_untag (cfg : config) (o : orders) (r : ref) (s : store) : store * result :=
@@ -389,12 +401,14 @@ Section Universe.
   (* ---------- operations and histories ---------- *)
   Inductive op :=
   | OPush (k : nat)
+  | OPushX (d : desc)      (* Push with a descriptor that carries annotations etc. *)
   | OTag (d : desc) (r : ref)
   | OUntag (r : ref)
   | ODelete (k : nat)
   | OGC
   | OSave
   | OReopen        (* close and oci.New on the same directory *)
+  | OSetAutoGC (b : bool)  (* assignment to the public field Store.AutoGC *)
   | OInject (k : nat).  (* not a store operation: node k's bytes are written as a blob file
                            behind the store's back ("garbage whose metadata is not stored") *)
 
@@ -402,17 +416,27 @@ Section Universe.
     let o := snd oo in
     match fst oo with
     | OPush k => st_push cfg o k s
+    | OPushX d => st_push_desc cfg o d s
     | OTag d r => st_tagop cfg o d r s
     | OUntag r => st_untag cfg o r s
     | ODelete k => st_delete cfg o k s
     | OGC => st_gc cfg o s
     | OSave => (do_save o s, ROk)
     | OReopen => (reopen s, ROk)
+    | OSetAutoGC _ => (s, ROk)     (* the field lives in [config]: see [next_cfg] *)
     | OInject k => (if mem k (blobs s) then s else mkStore (k :: blobs s) (res s) (gr s) (disk s), ROk)
     end.
 
-  Definition run (cfg : config) (h : list (op * orders)) (s : store) : store :=
-    fold_left (fun s oo => fst (step cfg s oo)) h s.
+  (* AutoGC may be changed between operations (AutoSaveIndex is fixed per history: after
+     switching it on, index.json is only current after the next save) *)
+  Definition next_cfg (cfg : config) (o : op) : config :=
+    match o with OSetAutoGC b => mkCfg (autosave cfg) b | _ => cfg end.
+
+  Fixpoint run (cfg : config) (h : list (op * orders)) (s : store) : store :=
+    match h with
+    | [] => s
+    | oo :: h' => run (next_cfg cfg (fst oo)) h' (fst (step cfg s oo))
+    end.
 
   (* ---------- observations (public API) ---------- *)
   Definition obs_tags (T : nat) (s : store) : list nat :=
@@ -447,11 +471,12 @@ Section Universe.
   Definition gc_sweeps_stray (k : stray) : bool := match k with SValidName => true | _ => false end.
 
   (* ---------- vocabulary of the C08 statements (definitions only) ---------- *)
-  (* a tag name is never the digest string of another node *)
+  (* a reference in digest form names the descriptor's own content (enforced by Tag when
+     fixRef; the hypothesis of the pre-fix instance) *)
   Definition wf_tag (d : desc) (r : ref) : Prop := match r with RDig k => k = d_node d | RTag _ => True end.
   (* only non-manifest content is ever put into blobs/ behind the store's back *)
   Definition wf_op (o : op) : Prop :=
-    match o with OTag d r => wf_tag d r | OInject k => mf k = false | _ => True end.
+    match o with OInject k => mf k = false | _ => True end.
   Definition wf_history (h : list (op * orders)) : Prop := Forall (fun oo => wf_op (fst oo)) h.
   Definition no_reopen (h : list (op * orders)) : Prop := Forall (fun oo => fst oo <> OReopen) h.
 
